@@ -94,10 +94,41 @@ Rat.zero = Rat(0)
 Rat.one = Rat(1)
 
 
+class BM2(Semiring):
+    """2x2 Boolean matrices (or, matrix product): finite, closed, idempotent and NON-commutative."""
+    __slots__ = ()
+
+    def __init__(self, x):
+        super().__init__(tuple(int(bool(v)) for v in x))
+
+    def __add__(self, o):
+        return BM2(a | b for a, b in zip(self.score, o.score))
+
+    def __mul__(self, o):
+        a, b, c, d = self.score
+        e, f, g, h = o.score
+        return BM2((a & e | b & g, a & f | b & h, c & e | d & g, c & f | d & h))
+
+    def star(self):
+        return BM2.one + self + self * self
+
+    def __hash__(self):
+        return hash(self.score)
+
+    def __repr__(self):
+        return "M%d%d%d%d" % self.score
+
+
+BM2.zero = BM2((0, 0, 0, 0))
+BM2.one = BM2((1, 0, 0, 1))
+
+
 def sr_name(R):
     """Name of the model semiring (Semirings.tla) for a library/user semiring class."""
     if R is Boolean:
         return "Bool"
+    if R is BM2:
+        return "BM2"
     if R is Sat2:
         return "Sat2"
     if R is Sat3:
@@ -119,4 +150,6 @@ def mk(R, x):
         return x
     if R is Boolean:
         return Boolean(bool(x))
+    if R is BM2:
+        return x if isinstance(x, BM2) else BM2(x)
     return R(x)
